@@ -220,8 +220,9 @@ func (p *protocolV2) Pack(ctx *protocol.Context, packet *protocol.Packet, opts .
 	copy(data[len(hd)+len(md):], packet.Body)
 
 	if packet.Metadata.Verify {
-		binary.BigEndian.PutUint64(data[hl+bl:hl+bl+v1.NonceLength], packet.Metadata.Nonce)
-		copy(data[hl+bl+v1.NonceLength:], packet.Metadata.Signature)
+		idx := hl + len(md) + bl
+		binary.BigEndian.PutUint64(data[idx:idx+v1.NonceLength], packet.Metadata.Nonce)
+		copy(data[idx+v1.NonceLength:], packet.Metadata.Signature)
 	}
 
 	return data, nil
